@@ -1,59 +1,118 @@
 """Builds a msdm TabularPOMDP from a harness/gen_pomdp.py case through the public interface
 (a TabularPOMDP subclass defining next_state_dist / reward / actions / initial_state_dist /
 is_absorbing / observation_dist), as msdm/tests/test_core_pomdp.py and the msdm domains do.
-Imported only by harness/impl/*.py (run under /venv/bin/python with PYTHONPATH=/repo)."""
+Imported only by harness/impl/*.py (run under /venv/bin/python with PYTHONPATH=/repo).
+
+ONE class serves every generated POMDP (all numbers live on the instance), so a process that builds
+many POMDPs exercises caches kept on the class or leaking between objects with equal labels."""
 import os
 import sys
 sys.path.insert(0, os.path.dirname(os.path.abspath(__file__)))
 from build import fl  # noqa: E402
 
+_CLASS = None
 
-def build_pomdp(case, explicit_lists=False):
-    """states, actions and observations are the integer ids of the case.
-    explicit_lists=True additionally pins _state_list/_action_list (otherwise msdm derives them by
-    reachability; gen_pomdp makes every state reachable, so both give [0..n-1])."""
-    from msdm.core.pomdp.tabularpomdp import TabularPOMDP
+
+def dec_label(l):
+    """tagged JSON label -> Python label: ["i", 3] ["s", "x"] ["f", 0.0] ["b", false] ["n"] ["t", [..]]"""
+    k = l[0]
+    if k == "i":
+        return int(l[1])
+    if k == "s":
+        return str(l[1])
+    if k == "f":
+        return float(l[1])
+    if k == "b":
+        return bool(l[1])
+    if k == "n":
+        return None
+    if k == "t":
+        return tuple(dec_label(x) for x in l[1])
+    raise ValueError(l)
+
+
+def _the_class():
+    global _CLASS
+    if _CLASS is None:
+        from msdm.core.pomdp.tabularpomdp import TabularPOMDP
+
+        class GeneratedPOMDP(TabularPOMDP):
+            def __init__(self, spec):
+                self._spec = spec
+                self.discount_rate = spec["gamma"]
+
+            def next_state_dist(self, s, a):
+                return self._spec["trans"][(s, a)]
+
+            def reward(self, s, a, ns):
+                return self._spec["rew"].get((s, a, ns), self._spec["zero"])
+
+            def actions(self, s):
+                return self._spec["actions"][s]
+
+            def initial_state_dist(self):
+                return self._spec["init"]
+
+            def is_absorbing(self, s):
+                return self._spec["absorbing"][s]
+
+            def observation_dist(self, a, ns):
+                return self._spec["obs"][(a, ns)]
+        _CLASS = GeneratedPOMDP
+    return _CLASS
+
+
+def build_pomdp(case, explicit_lists=False, labels=None, int01=False, dist_types=False):
+    """labels=None: states, actions and observations are the integer ids of the case; otherwise
+    {"S": [...], "A": [...], "O": [...]} tagged labels per id (see dec_label).  The label lists are
+    left on the object as _gen_S / _gen_A / _gen_O (id -> label).
+    explicit_lists=True pins _state_list/_action_list IN ID ORDER (not sorted label order); otherwise
+    msdm derives them by reachability and sorts them.
+    int01=True: probabilities / rewards that are whole numbers are passed as Python ints.
+    dist_types=True: certain rows become DeterministicDistribution, uniform rows UniformDistribution."""
     from msdm.core.distributions import DictDistribution
+    from msdm.core.distributions.dictdistribution import DeterministicDistribution, UniformDistribution
+    n, nA, nO = case["n"], case["nA"], case["nO"]
+    S = [dec_label(l) for l in labels["S"]] if labels else list(range(n))
+    A = [dec_label(l) for l in labels["A"]] if labels else list(range(nA))
+    O = [dec_label(l) for l in labels["O"]] if labels else list(range(nO))
+
+    def num(p):
+        x = fl(p)
+        if int01 and x == int(x):
+            return int(x)
+        return x
+
+    def dist(row, L):
+        pos = [(e, p) for e, p in row if fl(p) != 0]
+        if dist_types and len(row) == len(pos):
+            if len(pos) == 1:
+                return DeterministicDistribution(L[pos[0][0]])
+            if len({p for _, p in pos}) == 1:
+                return UniformDistribution([L[e] for e, _ in pos])
+        return DictDistribution({L[e]: num(p) for e, p in row})
+
     trans = {}
     for k, row in case["trans"].items():
         s, a = map(int, k.split(","))
-        trans[(s, a)] = DictDistribution({ns: fl(p) for ns, p in row})
+        trans[(S[s], A[a])] = dist(row, S)
     rew = {}
     for k, r in case["reward"].items():
         s, a, ns = map(int, k.split(","))
-        rew[(s, a, ns)] = fl(r)
+        rew[(S[s], A[a], S[ns])] = num(r)
     obs = {}
     for k, row in case["obs"].items():
         a, ns = map(int, k.split(","))
-        obs[(a, ns)] = DictDistribution({o: fl(p) for o, p in row})
-    actions = [tuple(a) for a in case["actions"]]
-    absorbing = [bool(x) for x in case["absorbing"]]
-    init = DictDistribution({s: fl(p) for s, p in case["init"]})
-    gamma = fl(case["gamma"])
-
-    class GeneratedPOMDP(TabularPOMDP):
-        discount_rate = gamma
-
-        def next_state_dist(self, s, a):
-            return trans[(s, a)]
-
-        def reward(self, s, a, ns):
-            return rew.get((s, a, ns), 0.0)
-
-        def actions(self, s):
-            return actions[s]
-
-        def initial_state_dist(self):
-            return init
-
-        def is_absorbing(self, s):
-            return absorbing[s]
-
-        def observation_dist(self, a, ns):
-            return obs[(a, ns)]
-
-    p = GeneratedPOMDP()
+        obs[(A[a], S[ns])] = dist(row, O)
+    spec = {
+        "trans": trans, "rew": rew, "obs": obs, "zero": 0 if int01 else 0.0,
+        "actions": {S[s]: tuple(A[a] for a in acts) for s, acts in enumerate(case["actions"])},
+        "absorbing": {S[s]: bool(x) for s, x in enumerate(case["absorbing"])},
+        "init": dist(case["init"], S), "gamma": fl(case["gamma"]),
+    }
+    p = _the_class()(spec)
+    p._gen_S, p._gen_A, p._gen_O = S, A, O
     if explicit_lists:
-        p._state_list = tuple(range(case["n"]))
-        p._action_list = tuple(range(case["nA"]))
+        p._state_list = tuple(S)
+        p._action_list = tuple(A)
     return p
